@@ -100,6 +100,17 @@ func (f *genFam) populate(r *rand.Rand) {
 	for i, p := range []string{"p1", "p2", "p3", "p4"} {
 		f.try(&stypes.MsgInitProvider{Creator: acct(p).S(), Ip: domURL(p, doms[i]), Keybase: "kb", TotalSpace: 1_000_000})
 	}
+	// the same account in several roles (provider + plan owner + name owner ...): record kinds must not collide
+	if opt() {
+		f.try(&stypes.MsgBuyStorage{Creator: acct("p1").S(), ForAddress: acct("p1").S(), DurationDays: 30, Bytes: 1_000_000_000, PaymentDenom: "ujkl"})
+		f.try(&stypes.MsgInitProvider{Creator: b.S(), Ip: domURL("b", "d2"), Keybase: "kb", TotalSpace: 1_000_000})
+	}
+	if opt() {
+		f.try(&stypes.MsgBuyStorage{Creator: a.S(), ForAddress: acct("p2").S(), DurationDays: 30, Bytes: 1_000_000_000, PaymentDenom: "ujkl"})
+		f.try(&rtypes.MsgRegisterName{Creator: acct("p1").S(), Name: "prov.jkl", Years: 1, Data: "{}"})
+		f.try(&otypes.MsgCreateFeed{Creator: acct("p3").S(), Name: "provfeed"})
+		f.try(&ntypes.MsgCreateNotification{Creator: acct("p1").S(), To: acct("p1").S(), Contents: `{"n":9}`})
+	}
 	if opt() {
 		f.try(&stypes.MsgSetProviderKeybase{Creator: acct("p1").S(), Keybase: "kb2"})
 		f.try(&stypes.MsgAddClaimer{Creator: acct("p2").S(), ClaimAddress: cc.S()})
